@@ -123,8 +123,8 @@ func (p *peer) Handshake(content []byte) (*ProtocolHandshake, error) {
 	if err := p.conn.WriteMsg(p2p.ProHandshakeMsg, content); err != nil {
 		return nil, err
 	}
-	// read from remote
-	msgCh := make(chan *p2p.Msg)
+	// read from remote (buffered: after the timeout below nobody receives any more and the reader must still be able to finish)
+	msgCh := make(chan *p2p.Msg, 1)
 	go func() {
 		if msg, err := p.conn.ReadMsg(); err == nil {
 			msgCh <- msg
